@@ -138,6 +138,9 @@ inline rc::Gen<EncCase> genEncCase(const EncGenParams& params)
             r.vendorId = *anyInt<uint16_t>();
             r.flags = static_cast<uint8_t>(*anyInt<uint8_t>() & ~0x40);
             r.viaApi = *range<uint8_t>(0, 1);
+            // one typed packet in eight: the payload is resized in place after it was handed to the packet
+            if (r.kind >= rkCan && r.kind <= rkEthernet && *range<int>(0, 7) == 0)
+                r.inPlace = 1;
 
             // target total payload length
             long target = *rc::gen::weightedOneOf<long>(
